@@ -14,6 +14,7 @@ LOG=/root/scratch/confirm_$NAME.log; : > "$LOG"
 say() { echo "$@" | tee -a "$LOG"; }
 # clean tree, then apply the patch as delivered
 # (never `git stash`: the stash is shared by all worktrees of the repository)
+git reset -q 2>/dev/null
 git checkout -q -- . 2>/dev/null
 git clean -fdq -- . ':!SEED' 2>/dev/null
 if ! git apply --check SEED/patch.diff 2>>"$LOG"; then say "FAIL: patch does not apply to HEAD"; exit 1; fi
@@ -24,8 +25,8 @@ git apply SEED/patch.diff
 if ! go build ./... >>"$LOG" 2>&1; then say "FAIL: does not build"; exit 1; fi
 DEMO_SEED_RC=0
 ( eval "$DEMO" ) >>"$LOG" 2>&1 || DEMO_SEED_RC=$?
-# remove demo files the command copied into package dirs
-git clean -fdq -- . ':!SEED' 2>/dev/null
+# remove demo files the command copied into package dirs (not `git clean`: the patch may add new files)
+find . -name 'zz_*_test.go' -not -path './SEED/*' -delete 2>/dev/null
 SUITE_RC=1
 for try in 1 2 3 4; do
   # the airgapped tests use a fixed /tmp path shared with the sub-agents' own runs: retry on a lock clash
